@@ -23,7 +23,7 @@ RULE = ("seeded random circuits (all component kinds, loss, barriers, unitary bl
 MANDATORY = ["swap_blocked_by:PhaseShifter", "swap_blocked_by:BeamSplitter", "swap_blocked_by:Loss",
              "swap_blocked_by:Group", "swap_blocked_by:UnitaryMatrix", "swaps_mergeable",
              "reversed_nonadjacent_bs_in_group", "heralded_group_unpacked", "frozen_copy", "independence_checked",
-             "original_gets_heralded_subcircuit_after_copy"]
+             "original_gets_heralded_subcircuit_after_copy", "copy_unpacked_then_edited"]
 DECIDING = ["rewrite_postconditions", "mon.cmp"]
 BUDGET = {"quick": 25, "thorough": 420}
 ASSUMPTIONS = ["U_full compared entry-wise to 1e-9 (the rewrites do not reorder loss modes)",
@@ -170,7 +170,8 @@ def run(ctx):
         log: list = []
         try:
             n = int(rng.integers(2, 7))
-            c = b.tree(n, int(rng.choice([0, 1, 1, 2])), log, max_children=3, steps=(2, 8),
+            c = b.tree(n, int(rng.choice([0, 1, 1, 2])), log, max_children=int(rng.choice([1, 3])),
+                       steps=(0, 0) if rng.random() < 0.2 else (2, 8),
                        group_p=0.7, gate_p=0.15, direct_heralds_p=0.2)
             if rng.random() < 0.5:
                 # directed: a grouped child holding a reversed, non-adjacent beam splitter
@@ -199,6 +200,9 @@ def run(ctx):
                         ctx.bucket("frozen_copy")
                     # behavioural independence: edit one, the other must not move
                     fp2 = circmon.circuit_fingerprint(c2, with_unitary=True)
+                    if rng.random() < 0.5:
+                        c2.unpack_groups()          # the copy is rewritten first, then edited
+                        ctx.bucket("copy_unpacked_then_edited")
                     b.primitive(c2, [], None)
                     if rng.random() < 0.5:
                         c2.compress_mode_swaps() if rng.random() < 0.5 else c2.remove_non_adjacent_bs()
